@@ -398,9 +398,13 @@ func sharedOperandReplay(c fieldCase, r *Run) string {
 		}
 		memo := map[*ref.N]*big.Int{}
 		var want []*big.Int
+		if concreteGL != nil || concreteBN != nil {
+			ref.SetConcreteHashes(concreteGL, concreteBN)
+		}
 		for _, n := range refs {
 			want = append(want, ref.Eval(n, func(h any) *big.Int { return env[h.(*sym.Term).Name] }, memo))
 		}
+		ref.ClearConcreteHashes()
 		if ok, msg := runCaseOnR1CS(c, names, env, want); !ok {
 			return "the circuit compiled with gnark's R1CS builder rejects the true results of " + c.name + " (" + msg + "): an operand handed to api.MulAcc is extended in place and read again afterwards"
 		}
